@@ -381,6 +381,8 @@ func init() {
 		ext(id, "client-streaming upload over plain HTTP with Content-Encoding: gzip (real gzip, pooled reader; 1..2 messages; body length known / unknown), then two decompressions in flight at once must each read their own stream",
 			HarnessSpec{Name: "VerifH_gzip_stream", StepsQ: 40000000, StepsT: 40000000, Covers: []string{"gzip-upload", "unknown-length", "two-decompressions"}})
 	}
+	ext("C18", "HttpBody replies with a stats handler installed: one out-payload event per reply that was sent, none for a refused one",
+		HarnessSpec{Name: "VerifH_http_send", Covers: []string{"httpbody-stats"}})
 	wkt := "well-known-type parameters (google.protobuf wrappers, FieldMask, Duration, Timestamp) through the real parseQueryParams / parseParam / quote / params.set: the empty text for each of 10 types, a menu of 40 boundary texts (non-BMP strings, 32/64-bit limits, duration range and Go-style units, leap days, RFC 3339 range), symbolic texts of 1..3 (quick) / 1..4 (thorough) bytes for StringValue, BoolValue, Int32Value / UInt32Value, BytesValue, FieldMask; protojson's scalar forms modelled (model_wkt.go), generated messages seen through a fake reflection view"
 	for _, id := range []string{"C03", "C09", "C01"} {
 		ext(id, wkt, HarnessSpec{Name: "VerifH_params_wkt", Covers: []string{"empty-value", "menu-accepted", "menu-rejected", "string-wrapper", "bool-wrapper", "int-wrapper", "int-wrapper-rejected", "bytes-wrapper", "fieldmask", "fieldmask-rejected"}})
